@@ -3,12 +3,14 @@
 package dnsforward
 
 import (
+	"bytes"
 	"context"
 	"crypto/tls"
 	"encoding/binary"
 	"fmt"
 	"net"
 	"net/http"
+	"net/http/httptest"
 	"net/netip"
 	"net/url"
 	"strings"
@@ -1442,9 +1444,10 @@ func TestVerifC03(t *testing.T) {
 			UDPListenAddrs: []*net.UDPAddr{{IP: net.IP{127, 0, 0, 1}}},
 			TCPListenAddrs: []*net.TCPAddr{{IP: net.IP{127, 0, 0, 1}}},
 			TLSConf: &TLSConfig{
-				Cert:           &tlsCert,
-				TLSListenAddrs: []*net.TCPAddr{{IP: net.IP{127, 0, 0, 1}}},
-				ServerName:     tlsServerName,
+				Cert:            &tlsCert,
+				TLSListenAddrs:  []*net.TCPAddr{{IP: net.IP{127, 0, 0, 1}}},
+				QUICListenAddrs: []*net.UDPAddr{{IP: net.IP{127, 0, 0, 1}}},
+				ServerName:      tlsServerName,
 			},
 			Config: Config{
 				UpstreamMode:      UpstreamModeLoadBalance,
@@ -1538,6 +1541,145 @@ func TestVerifC03(t *testing.T) {
 				}
 			}
 			out.Emit(c)
+
+			// the same request as DNS-over-QUIC through a real listener on
+			// 127.0.0.1 (dnsproxy's own DoQ client; the server name of the
+			// handshake carries the ClientID)
+			func() {
+				qa, _ := s.dnsProxy.Addr(proxy.ProtoQUIC).(*net.UDPAddr)
+				if qa == nil {
+					t.Fatalf("no DoQ listener")
+				}
+				qu, qerr := upstream.AddressToUpstream(fmt.Sprintf("quic://%s:%d", sni, qa.Port), &upstream.Options{
+					InsecureSkipVerify: true,
+					Bootstrap:          upstream.StaticResolver{netip.MustParseAddr("127.0.0.1")},
+					Timeout:            10 * time.Second,
+				})
+				if qerr != nil {
+					// the client refuses the name (an unusable label): nothing to send
+					return
+				}
+				defer func() { _ = qu.Close() }()
+				up0, log0, st0 := ups.calls.Load(), ql.adds.Load(), st.updates.Load()
+				req := createTestMessageWithType(name, dns.TypeA)
+				replyClass := 3
+				resp, xerr := qu.Exchange(req)
+				switch {
+				case xerr != nil:
+					replyClass = 0
+				case resp.Rcode == dns.RcodeRefused:
+					replyClass = 1
+				case resp.Rcode == dns.RcodeServerFailure:
+					replyClass = 2
+				}
+				runs := ups.calls.Load() - up0
+				logged, counted := ql.adds.Load()-log0, st.updates.Load()-st0
+				c := vfCase{
+					Coq: vfApp("CWire", c03EntriesCoq(allowed), c03EntriesCoq(blocked), vfRulesCoq(hosts), "PQUIC",
+						vfOpt("bytes", kind != "invalid", vfBytes(id)), vfOptAddrCoq(cliIP), c03QCoq(req), vfN(uint64(replyClass)), vfN(uint64(runs))),
+					Nontrivial: true,
+					Classes:    []string{fmt.Sprintf("wire-quic-reply-%d", replyClass), "wire-quic-clientid-" + kind},
+					MonitorOK:  true,
+					Desc: map[string]any{"allowed": allowed, "disallowed": blocked, "blocked_hosts": vfRuleTexts(hosts),
+						"proto": "quic", "tls_server_name": sni, "name": name, "reply_class": replyClass, "upstream_calls": runs, "logged": logged, "counted": counted,
+						"exchange_error": fmt.Sprint(xerr)},
+				}
+				fail := func(msg string) {
+					c.MonitorOK = false
+					c.MonitorMsg = fmt.Sprintf("%s (allowed=%q disallowed=%q blocked_hosts=%q proto=quic tls_server_name=%s name=%s reply=%d upstream=%d logged=%d counted=%d err=%v)",
+						msg, allowed, blocked, vfRuleTexts(hosts), sni, name, replyClass, runs, logged, counted, xerr)
+					c.FindingKey = "wire-quic-" + vfHash(allowed, blocked, vfRuleTexts(hosts), sni, name)
+				}
+				switch {
+				case kind == "invalid":
+					if replyClass != 2 {
+						fail("request with an unusable ClientID must be answered SERVFAIL")
+					} else if runs != 0 || logged != 0 || counted != 0 {
+						fail("request with an unusable ClientID was resolved, logged or counted")
+					}
+				case excluded || hostMust > 0:
+					if replyClass != 1 {
+						fail("excluded request over quic must get REFUSED")
+					} else if runs != 0 || logged != 0 || counted != 0 {
+						fail("excluded request was resolved, logged or counted")
+					}
+				case hostMust < 0:
+					if replyClass != 3 || runs != 1 || logged != 1 || counted != 1 {
+						fail("admitted request was not served exactly once")
+					}
+				}
+				out.Emit(c)
+			}()
+
+			// the same request as DNS-over-HTTPS through dnsproxy's real
+			// HTTP handler (Server.ServeHTTP; no TLS listener: the request
+			// arrives as from a reverse proxy), ClientID in the URL path
+			{
+				up0, log0, st0 := ups.calls.Load(), ql.adds.Load(), st.updates.Load()
+				req := createTestMessageWithType(name, dns.TypeA)
+				body, perr := req.Pack()
+				if perr != nil {
+					t.Fatalf("packing: %v", perr)
+				}
+				urlPath := "/dns-query"
+				if label != "" {
+					urlPath += "/" + label
+				}
+				hr := httptest.NewRequest(http.MethodPost, urlPath, bytes.NewReader(body))
+				hr.Header.Set("Content-Type", "application/dns-message")
+				hr.RemoteAddr = "127.0.0.1:34567"
+				hr.Host = tlsServerName
+				hw := httptest.NewRecorder()
+				s.ServeHTTP(hw, hr)
+				replyClass := 0
+				resp := &dns.Msg{}
+				if hw.Code == http.StatusOK && resp.Unpack(hw.Body.Bytes()) == nil {
+					switch resp.Rcode {
+					case dns.RcodeRefused:
+						replyClass = 1
+					case dns.RcodeServerFailure:
+						replyClass = 2
+					default:
+						replyClass = 3
+					}
+				}
+				runs := ups.calls.Load() - up0
+				logged, counted := ql.adds.Load()-log0, st.updates.Load()-st0
+				c := vfCase{
+					Coq: vfApp("CWire", c03EntriesCoq(allowed), c03EntriesCoq(blocked), vfRulesCoq(hosts), "PHTTPS",
+						vfOpt("bytes", kind != "invalid", vfBytes(id)), vfOptAddrCoq(cliIP), c03QCoq(req), vfN(uint64(replyClass)), vfN(uint64(runs))),
+					Nontrivial: true,
+					Classes:    []string{fmt.Sprintf("wire-https-reply-%d", replyClass), "wire-https-clientid-" + kind},
+					MonitorOK:  true,
+					Desc: map[string]any{"allowed": allowed, "disallowed": blocked, "blocked_hosts": vfRuleTexts(hosts),
+						"proto": "https", "url_path": urlPath, "http_status": hw.Code, "name": name, "reply_class": replyClass, "upstream_calls": runs, "logged": logged, "counted": counted},
+				}
+				fail := func(msg string) {
+					c.MonitorOK = false
+					c.MonitorMsg = fmt.Sprintf("%s (allowed=%q disallowed=%q blocked_hosts=%q proto=https url_path=%s name=%s http_status=%d reply=%d upstream=%d logged=%d counted=%d)",
+						msg, allowed, blocked, vfRuleTexts(hosts), urlPath, name, hw.Code, replyClass, runs, logged, counted)
+					c.FindingKey = "wire-https-" + vfHash(allowed, blocked, vfRuleTexts(hosts), urlPath, name)
+				}
+				switch {
+				case kind == "invalid":
+					if replyClass != 2 {
+						fail("request with an unusable ClientID must be answered SERVFAIL")
+					} else if runs != 0 || logged != 0 || counted != 0 {
+						fail("request with an unusable ClientID was resolved, logged or counted")
+					}
+				case excluded || hostMust > 0:
+					if replyClass != 1 {
+						fail("excluded request over https must get REFUSED")
+					} else if runs != 0 || logged != 0 || counted != 0 {
+						fail("excluded request was resolved, logged or counted")
+					}
+				case hostMust < 0:
+					if replyClass != 3 || runs != 1 || logged != 1 || counted != 1 {
+						fail("admitted request was not served exactly once")
+					}
+				}
+				out.Emit(c)
+			}
 		}
 	}
 	wireTLS(nil, []string{"MyPhone"}, nil, []string{"", "myPHONE", "kid", "bad_id"}, "a.test.")
